@@ -133,6 +133,11 @@ for mut, what in [("loop_skip", "remove_node skipping the self-loop link (and it
     r = tlc("simple/GraphMapImpl", "MCGraphMapImplNeg_%s.cfg" % mut, workers=4, timeout=300)
     expect("GraphMapImpl mutant %s violates Inv: %s" % (mut, what), any("Invariant Inv is violated" in e for e in r.errors), str(r.errors[:1]))
 
+for mut, what in [("skip_one", "IdIterator skipping only one removed id"), ("clear_upto_count", "remove_node clearing cells for ids 0..node_count instead of the live ids"),
+                  ("no_incoming_clear", "remove_node not clearing the incoming cells of a directed matrix")]:
+    r = tlc("simple/MatrixImpl", "MCMatrixImplNeg_%s.cfg" % mut, workers=4, timeout=300)
+    expect("MatrixImpl mutant %s violates Inv: %s" % (mut, what), any("Invariant Inv is violated" in e for e in r.errors), str(r.errors[:1]))
+
 bad = [r for r in results if not r["ok"]]
 os.makedirs(os.path.join(VERIF, "evidence"), exist_ok=True)
 json.dump({"tests": results, "failed": len(bad)}, open(os.path.join(VERIF, "evidence", "selftest.json"), "w"), indent=1)
